@@ -355,6 +355,8 @@ KNAMES = ["MAX_USERS", "MAX_ACTIVE", "MAX_BOARD", "HASH_BITS", "MAX_FRIEND", "MA
 
 # partial updates: function -> (record type, record-size constant or None, fields it may write/read)
 INTENDED = [
+    ("cmbbs.PasswdQuery", "UserecRaw", "USEREC_RAW_SZ", []),
+    ("cmbbs.PasswdUpdate", "UserecRaw", "USEREC_RAW_SZ", []),
     ("cmbbs.PasswdQueryPasswd", "UserecRaw", "USEREC_RAW_SZ", ["PasswdHash"]),
     ("cmbbs.PasswdQueryUserLevel", "UserecRaw", "USEREC_RAW_SZ", ["UserLevel"]),
     ("cmbbs.PasswdUpdatePasswd", "UserecRaw", "USEREC_RAW_SZ", ["PasswdHash"]),
